@@ -17,6 +17,7 @@ namespace
   struct CsrTraits
   {
     typedef DT_ DT; typedef IT_ IT; typedef SparseMatrixCSR<DT, IT> M; typedef DenseVector<DT, IT> VL; typedef DenseVector<DT, IT> VR;
+    typedef SparseMatrixCSR<DT, typename OtherIndex<IT>::type> MO;
     struct Aux { int m, n; };
     static constexpr bool has_shrink = true;
     static const char* prefix() { return "csr."; }
@@ -51,19 +52,25 @@ namespace
       {
         const int nreps = (bits == 0 && sh.m > 0 && sh.n > 0) ? 2 : 1;
         for(int rep = 0; rep < nreps; ++rep)
-          for(int alphabet = 0; alphabet < (big ? 1 : 2); ++alphabet)
+          for(const Variant& var : (big ? std::vector<Variant>{{0, S_BASE}, {0, S_CLONE_WEAK}} : uvariants(bitsn <= 9)))
             for(const UCase& uc : ucs)
             {
+              const int alphabet = var.alphabet;
               if(uc.op == U_DIAG && sh.m != sh.n) continue;                       // XASSERT: square only
               if(uc.op >= U_MAXABS && uc.op <= U_MIN && bits == 0) continue;      // precondition: no min/max of nothing
               if(uc.op == U_SHRINK && bits == 0 && (uc.var % 5) > 1) continue;
               if(uc.op == U_SHRINK && bits == 0 && uc.var >= 5) continue;
+              if(!alphabet_applies(uc.op, alphabet)) continue;                    // extreme magnitudes: selecting / single-entry operations only
+              if(alphabet == 3 && uc.op == U_SCALE && !scalars[uc.var % 7].dyadic) continue; // (denormal * 0.3 is not a rounding-bound statement)
+              if(var.scenario != S_BASE && (bits == 0 || rep != 0)) continue;     // derived objects of matrices with entries
               if(!c.want()) continue;
-              const DenseRef D = dense_from_bits(sh.m, sh.n, bits, alphabet);
+              set_extreme_exp<DT>();
+              const DenseRef D = dense_from_bits(sh.m, sh.n, bits, alphabet == 3 ? 0 : alphabet);
               const bool ef = (bits == 0 && rep == 0);
-              c.desc([&]{ return "csr<" + tp<DT, IT>() + "> " + D.str() + (bits == 0 ? (rep ? " rep=allocated-empty " : " rep=entry-free ") : " ") + uname[uc.op] + " variant=" + std::to_string(uc.var) + (alphabet ? " alphabet=rounding" : " alphabet=exact"); });
-              guarded(c, ef, std::string("entry-free operand ") + uname[uc.op], [&]{ run_unary<CsrTraits<DT, IT>>(c, uc, D, rep, alphabet, typename CsrTraits<DT, IT>::Aux{sh.m, sh.n}); });
-              if(bits != 0) c.nontrivial(verif::Hash().str("u").str(tp<DT, IT>()).pod(sh).pod(bits).pod(uc).pod(alphabet).get());
+              static const char* sn[9] = {"", "", "", " operands=deep-clones", " operands=shallow-clones", " operands=weak-clones", " operands=moved", " operands=index-type-round-trip", ""};
+              c.desc([&]{ return "csr<" + tp<DT, IT>() + "> " + D.str() + (bits == 0 ? (rep ? " rep=allocated-empty " : " rep=entry-free ") : " ") + uname[uc.op] + " variant=" + std::to_string(uc.var) + " alphabet=" + alphabet_name(alphabet) + sn[var.scenario]; });
+              guarded(c, ef, std::string("entry-free operand ") + uname[uc.op], [&]{ run_unary<CsrTraits<DT, IT>>(c, uc, D, rep, alphabet, typename CsrTraits<DT, IT>::Aux{sh.m, sh.n}, var.scenario); });
+              if(bits != 0) c.nontrivial(verif::Hash().str("u").str(tp<DT, IT>()).pod(sh).pod(bits).pod(uc).pod(var).get());
               c.outcome(std::string("csr/") + uname[uc.op]);
               c.count("operations");
             }
@@ -149,6 +156,57 @@ namespace
         }
       }
     }
+    // ---- extra executions (lessons 2, 3, 4) for cases that neither must abort nor touch an entry-free operand:
+    //  0: all-negative alphabet, alpha=1   1: re-invocation: the product is added twice onto the same X (alpha=1/2)
+    //  2: derived operands (d shallow clone, a weak clone, b moved deep clone; X = weak clone of a bystander sharing its layout), alpha=-1
+    if((!complete && !allow) || ef) return;
+    for(int extra = 0; extra < 3; ++extra)
+    {
+      const int alphabet = (extra == 0) ? 2 : 0;
+      DenseRef X = dense_id(0, d.m, d.n, bx, alphabet), Dd = dense_id(1, d.m, d.k, bd, alphabet), B = dense_id(3, d.l, d.n, bb, alphabet);
+      DenseRef A(d.k, d.l);
+      if(pop == P_DMM) A = dense_id(2, d.k, d.l, ba, alphabet);
+      else if(pop == P_DVM) { for(int q = 0; q < d.k; ++q) A.set(q, q, mval(2, alphabet, q, q)); }
+      else { for(int q = 0; q < d.k; ++q) A.set(q, q, LD(1)); }
+      for(DenseRef* p : {&X, &Dd, &A, &B}) for(auto& v : p->a) v = LD(DT(v));
+      M sd = build_csr<DT, IT>(Dd, rep), sb = build_csr<DT, IT>(B, rep), sa, sx = build_csr<DT, IT>(X, rep);
+      if(pop == P_DMM) sa = build_csr<DT, IT>(A, rep);
+      M md = (extra == 2) ? sd.clone(CloneMode::Shallow) : sd.clone(CloneMode::Shallow);
+      M ma = (pop == P_DMM) ? ((extra == 2) ? sa.clone(CloneMode::Weak) : sa.clone(CloneMode::Shallow)) : M();
+      M mb; if(extra == 2) { M t = sb.clone(CloneMode::Deep); M moved(std::move(t)); mb = std::move(moved); } else mb = sb.clone(CloneMode::Shallow);
+      M mx = (extra == 2) ? sx.clone(CloneMode::Weak) : sx.clone(CloneMode::Shallow);
+      V va; if(pop == P_DVM) { va = V(Index(d.k)); std::vector<LD> f; for(int q = 0; q < d.k; ++q) f.push_back(A.at(q, q)); vfill(va, f); }
+      const uint64_t hd = hash_of(sd), hb = hash_of(sb), ha = (pop == P_DMM) ? hash_of(sa) : 0, hx0 = hash_of(sx), sxs = hash_structure(mx);
+      const LD alpha = (extra == 0) ? LD(1) : (extra == 1) ? LD(0.5L) : LD(-1);
+      const int reps = (extra == 1) ? 2 : 1;
+      auto op = [&]{
+        for(int q = 0; q < reps; ++q)
+        {
+          if(pop == P_MM) mx.add_mat_mat_product(md, mb, DT(alpha), allow);
+          else if(pop == P_DMM) mx.add_double_mat_product(md, ma, mb, DT(alpha), allow);
+          else mx.add_double_mat_product(md, va, mb, DT(alpha), allow);
+        } };
+      const int st = trapped(op);
+      c.count("operations", uint64_t(reps));
+      static const char* en[3] = {" all-negative", " re-invocation", " derived-operands"};
+      c.count(extra == 0 ? "all_negative_product_executions" : extra == 1 ? "re_invocations" : "derived_object_cases");
+      if(st != 0) { c.fail(key + en[extra] + " crash", "operation died with signal " + std::to_string(st)); return; }
+      if(!c.check(hash_structure(mx) == sxs, key + en[extra] + " structure-modified", "layout of the output matrix changed")) return;
+      if(!c.check(hash_of(sd) == hd && hash_of(sb) == hb && (pop != P_DMM || hash_of(sa) == ha), key + en[extra] + " operand-modified", "an input operand (source of a derived operand) was modified")) return;
+      if(extra == 2 && !c.check(hash_of(sx) == hx0, key + en[extra] + " bystander-modified", "the matrix whose layout the output matrix shares (weak clone) was modified")) return;
+      const bool exact = (std::is_same<DT, double>::value || std::max(std::max(d.m, d.k), std::max(d.l, d.n)) <= 2);
+      size_t kk = 0;
+      for(int i = 0; i < d.m; ++i) for(int j = 0; j < d.n; ++j) if(X.has(i, j))
+      {
+        LD s = 0, as = 0;
+        for(int k = 0; k < d.k; ++k) if(Dd.has(i, k)) for(int l = 0; l < d.l; ++l) if(A.has(k, l) && B.has(l, j))
+        { const LD t = Dd.at(i, k) * A.at(k, l) * B.at(l, j); s += t; as += fabsl(t); }
+        const LD expect = X.at(i, j) + LD(reps) * alpha * s;
+        if(!near<DT>(c, key + en[extra], mx.val()[kk], expect, exact, LD(8 * (d.k * d.l + 2)) * std::numeric_limits<DT>::epsilon() * (fabsl(X.at(i, j)) + as),
+          "entry (" + std::to_string(i) + "," + std::to_string(j) + ")")) return;
+        ++kk;
+      }
+    }
   }
 
   /// structural completeness: pattern(D*A*B) subset of pattern(X)
@@ -219,9 +277,9 @@ namespace
 int main(int argc, char** argv)
 {
   FEAT::Runtime::ScopeGuard guard(argc, argv);
-  verif::Spec spec; spec.property = "C03"; spec.harness = "c03_algebra"; spec.max_fail_per_worker = 1000000;
-  spec.rule = "element-wise ops: case = (type pair, shape, one of ALL 2^(mn) patterns, representation of the empty pattern, operation + variant (alpha, x aliasing this, overload, shrink threshold, stored zero), alphabet); "
-    "products: case = (operation, dimension tuple, one of ALL pattern tuples (X,D[,A],B), empty-pattern representation, allow_incomplete), each executed for alpha in {1,-1,1/2,0.3,0} x {exact, rounding alphabet}; "
+  verif::Spec spec; spec.property = "C03"; spec.harness = "c03_algebra"; spec.max_fail_per_worker = 1000000; spec.case_timeout_s = 120;
+  spec.rule = "element-wise ops: case = (type pair, shape, one of ALL 2^(mn) patterns, representation of the empty pattern, operation + variant (alpha, x aliasing this, overload, shrink threshold, stored zero), alphabet {exact, rounding, all-negative, extreme magnitudes} or (exact alphabet) operands that are deep/shallow/weak clones, moved or index-type-converted objects, target = weak clone of a bystander); every operation is invoked twice on the same objects; "
+    "products: case = (operation, dimension tuple, one of ALL pattern tuples (X,D[,A],B), empty-pattern representation, allow_incomplete), each executed for alpha in {1,-1,1/2,0.3,0} x {exact, rounding alphabet} + all-negative alphabet + product added twice (re-invocation) + derived operands (clones / moved, output = weak clone of a bystander); "
     "non-trivial = pattern(s) with entries; hash over all of these";
   spec.bounds_quick = "element-wise: shapes {0..3}x{0..3}, all patterns, (double,u64),(float,u32),(double,u32); products: add_mat_mat_product and the diagonal-vector double product for all dims in {1,2}^3, "
     "add_double_mat_product for all dims in {1,2}^4 (65536 pattern tuples for 2x2x2x2, double/u64; float/u32 up to 2^14 tuples per dims); (sanitizer build: up to 2^12 resp. 2^10 tuples per dims); incomplete & !allow_incomplete executions must die with SIGABRT (trapped in-process by a sigsetjmp handler; a deterministic 1/97 sample is repeated in a forked child and must agree)";
